@@ -7,6 +7,18 @@ ROOT = os.path.dirname(os.path.dirname(os.path.abspath(__file__)))
 ALL = [f'C{i:02d}' for i in range(1, 21)]
 
 CHECKS = {
+    'C02': dict(
+        engine='S', category='other', design_ref='DESIGN.md §4 C02',
+        technique='CrossHair symbolic execution of the real parse_aliquot with symbolic depth integers / break_halves / component '
+                  'indices, path tree exhausted; exact-fraction geometric tiling oracle per path',
+        text='Every chain of 1..3 (quick) / 1..4 (thorough) halves and quarters in any order (same-axis, cross-axis, quarter '
+             'before half) plus ALL alone, with qq_depth_min 1..3, qq_depth_max None or min..min+2, qq_depth None or 1..3 and '
+             'break_halves on/off: the returned pieces are pairwise disjoint, inside the described region (halvings beyond '
+             'qq_depth_max per axis ignored), their areas add up to it, each has its largest `min` components quarters, none is '
+             'deeper than max, none contains a half under break_halves.',
+        note='Chain shapes are a finite enumeration (one CrossHair path per chain x settings class); the depth integers are '
+             'symbolic (folded into range by modulo). Text is the canonical rendering; ALL mixed into a chain is unreachable '
+             'through the public API and excluded. Oracle: spec/aliquot_spec.py.'),
     'C12': dict(
         engine='M+Z+S', category='model_checking', design_ref='DESIGN.md §4 C12',
         technique='SMT (z3): exact bounded encoding of re matching + regular-language inclusion on the live unpacker '
